@@ -499,3 +499,37 @@ func TestReproK28_LRemMinInt(t *testing.T) {
 		})
 	}()
 }
+
+// K29: Merge asked the key/value index "is there a newer record of this bucket and key" for records of
+// every data structure. A set (list, sorted set) record whose bucket name and key coincide with a key/value
+// pair written to a later segment was dropped by Merge; the member is gone after the reopen.
+func TestReproK29_MergeKeepsSetShadowedByKV(t *testing.T) {
+	dir := reproDir(t)
+	defer os.RemoveAll(dir)
+	d := reproOpen(t, dir, HintKeyValAndRAMIdxMode, 200, FileIO)
+	if err := d.Update(func(tx *Tx) error { return tx.SAdd("s", []byte("k"), []byte("member")) }); err != nil {
+		t.Fatal(err)
+	}
+	for i := 0; i < 6; i++ { // same bucket name and key in the key/value space, in later segments
+		if err := d.Update(func(tx *Tx) error { return tx.Put("s", []byte("k"), []byte(fmt.Sprintf("value-%02d-xxxxxxxxxxxxxxxxxxxxxxxx", i)), 0) }); err != nil {
+			t.Fatal(err)
+		}
+	}
+	if err := d.Merge(); err != nil {
+		t.Fatal(err)
+	}
+	if err := d.Close(); err != nil {
+		t.Fatal(err)
+	}
+	d = reproOpen(t, dir, HintKeyValAndRAMIdxMode, 200, FileIO)
+	defer d.Close()
+	if err := d.View(func(tx *Tx) error {
+		ok, err := tx.SIsMember("s", []byte("k"), []byte("member"))
+		if err != nil || !ok {
+			return fmt.Errorf("after Merge and reopen SIsMember(s,k,member) = %v, %v; the set record was dropped because a key/value pair (s,k) exists in a later segment", ok, err)
+		}
+		return nil
+	}); err != nil {
+		t.Fatal(err)
+	}
+}
